@@ -21,6 +21,8 @@ CHECKS = {
          'Every recorded evaluation of the real curves is checked against the exact definition with explicit float envelopes; sensor values cover the integer grid around every threshold and extreme floats.'),
  'C07': (MC, '6 (C07)', 'TLC check of monotonicity on Curves.tla / PwmMap.tla definitions + TLC validation of real ascending sweeps (curves, monotone curve graphs, controller with direct loop over curve values 0..255)',
          'Consecutive monotonicity on dense real sweeps implies monotonicity for all pairs on the grid.'),
+ 'C08': (MC, '6 (C08)', 'TLC exhaustive check of Smoothing.tla (exact rational average, fault actions) + TLC trace validation of real hwmon/file/cmd sensors polled through the real monitor poll with real read faults',
+         'Hull, geometric contraction, fault-is-no-op and never-poisoned hold in every model state (windows 1..4, depth 6) and on every recorded poll (windows 1..50) within the stated projection slack.'),
  'C09': (MC, '6 (C09)', 'TLC exhaustive check of Daemon.tla with fault actions (every placement of up to 2 faults) + TLC monitoring of real closed loops (sensor + monitor + curve + controller.Run + plant) with enumerated injected faults, run in child processes so that a crash is an observation',
          'All single faults (kind x backend combination x curve type x cycle index) in the quick tier, plus pairs in the thorough tier; no-crash and continue-or-hand-back evaluated on every recorded state.'),
  'C12': (MC, '6 (C12)', 'TLC check of PwmMap.tla (definition) + TLC validation of request->written vectors recorded from the real ExtractKeysWithDistinctValues / FindClosest / controller.setPwm for all maps over a key universe and random full-size maps',
@@ -31,6 +33,10 @@ CHECKS = {
          'Sweeps and RPM-curve measurements between process start and first regulation cycle are counted from hook events; reuse, config-map-no-sweep and at-most-once hold in every model state and on every recorded history. The README promise for minPwm+maxPwm is a recorded known finding (D10).'),
  'C16': (MC, '6 (C16)', 'TLC exhaustive check of Daemon.tla (mutex, all interleavings of 2-3 fans) + TLC monitoring of real controllers of 2-4 fans in real time (option false) and in a bubble (option true, overlap observed)',
          'Mutual exclusion of whole initialisation sequences over all interleavings in the model; real schedules with random start delays and plants of differing settle times.'),
+ 'C18': (MC, '6 (C18)', 'TLC validation of records of real executions over the complete owner x group x mode x symlink space against ExecPerm.tla (plus re-check sequences and the config-file rule)',
+         'Exhaustive: all 4096 combinations are really executed (or refused) on real files; a marker file tells whether the script ran.'),
+ 'C19': ('exploration', '6 (C19)', 'TLC check of the timed call machine Exec.tla + TLC validation of real calls (one script per failure mode x 4 timeouts, real time) against duration bound and expected outcomes',
+         'Failure modes are enumerated, timing is sampled in real time (margin 1 s): exploration, not proof.'),
  'C10': (MC, '6 (C10)', 'TLC exhaustive exact-arithmetic model MC_C10 (smoothing x plant thresholds x windows) + TLC trace validation of real controllers behind stalling plants',
          'Bounded-response (12n+2 polls), step-by-step progress and termination checked exhaustively on the exact model and on every recorded real step.'),
 }
